@@ -112,11 +112,21 @@ pub fn cases<T: KS + Send + Sync>(out: &mut Out, rng0: &mut Rng, tier: &Tier, wh
         if which == "C01" {
             out.case("c.compress", l(vec![nu(k), st.clone(), n(mode), l(order.clone())]), opt(g1v.clone()));
         }
+        // the hypotheses of the theorems (tbl_ok, exts_sym; exts_closed) hold on this table
+        if which == "C01" {
+            out.case("chk.c01.hyp", l(vec![nu(k), st.clone(), l(order.clone())]), l(vec![b(true), b(true)]));
+        } else {
+            out.case("chk.c02.hyp", l(vec![nu(k), st.clone(), l(order.clone())]), l(vec![b(true), b(true), b(true)]));
+        }
         if let Some(g) = &g1v {
             if which == "C01" {
                 out.case("chk.c01", l(vec![nu(k), st.clone(), l(order.clone()), g.clone()]), b(true));
             } else {
-                out.case("chk.c02", l(vec![nu(k), st.clone(), n(mode), l(order.clone()), g.clone()]), b(true));
+                out.case("chk.c02p", l(vec![nu(k), st.clone(), n(mode), l(order.clone()), g.clone()]), b(true));
+                // the independent fixpoint oracle (connected components of the link relation) is cubic: small tables only
+                if tbl.len() <= 40 {
+                    out.case("chk.c02", l(vec![nu(k), st.clone(), n(mode), l(order.clone()), g.clone()]), b(true));
+                }
             }
         } else {
             out.case(if which == "C01" { "chk.c01" } else { "chk.c02" }, l(vec![]), V::Bot);
@@ -128,7 +138,7 @@ pub fn cases<T: KS + Send + Sync>(out: &mut Out, rng0: &mut Rng, tier: &Tier, wh
         if which == "C01" {
             out.case("c.compress", l(vec![nu(k), st.clone(), n(mode), l(order.clone())]), opt(g2v.clone()));
         } else if let Some(g) = &g2v {
-            out.case("chk.c02", l(vec![nu(k), st.clone(), n(mode), l(order.clone()), g.clone()]), b(true));
+            out.case("chk.c02p", l(vec![nu(k), st.clone(), n(mode), l(order.clone()), g.clone()]), b(true));
         }
         // entry point 3: k-mers without extensions (only meaningful on unpruned, threshold-1 tables)
         if min_obs == 1 {
@@ -169,13 +179,18 @@ pub fn cases<T: KS + Send + Sync>(out: &mut Out, rng0: &mut Rng, tier: &Tier, wh
                     l(vec![st.clone(), l(keys.iter().map(|q| dna(&bases_of(q))).collect())]),
                     l(derived.iter().map(|e| n(e.val)).collect()),
                 );
+                out.case("chk.c01.hyp", l(vec![nu(k), st.clone(), l(order3.clone())]), l(vec![b(true), b(true)]));
                 out.case("c.compress", l(vec![nu(k), st.clone(), n(mode), l(order3.clone())]), opt(g3v.clone()));
                 match &g3v {
                     Some(g) => out.case("chk.c01", l(vec![nu(k), st.clone(), l(order3.clone()), g.clone()]), b(true)),
                     None => out.case("chk.c01", l(vec![]), V::Bot),
                 }
             } else if let Some(g) = &g3v {
-                out.case("chk.c02", l(vec![nu(k), st.clone(), n(mode), l(order3.clone()), g.clone()]), b(true));
+                out.case("chk.c02.hyp", l(vec![nu(k), st.clone(), l(order3.clone())]), l(vec![b(true), b(true), b(true)]));
+                out.case("chk.c02p", l(vec![nu(k), st.clone(), n(mode), l(order3.clone()), g.clone()]), b(true));
+                if tbl.len() <= 40 {
+                    out.case("chk.c02", l(vec![nu(k), st.clone(), n(mode), l(order3.clone()), g.clone()]), b(true));
+                }
             }
         }
     }
